@@ -3,6 +3,6 @@ CONSTANTS
  DrainBug = TRUE
  LinkCode = TRUE
  DupPathBug = TRUE
- Ids <- BigBfsIds
-INVARIANTS PropHoldsButKnown KnownReproduced Ordered PassBound
+ Ids <- SmallIds
+INVARIANTS PropExact Ordered PassBound
 CHECK_DEADLOCK TRUE
